@@ -138,7 +138,9 @@ func c01OptionClasses(e *Env, rule string) {
 			ev := core.SymInt("e", ib, true, extV.Lo, extV.Hi, 0)
 			return []*core.AVal{buf, nibV, ev}
 		})
-		if len(ow) != 1 || ow[0].Abort || ow[0].Panic || len(ow[0].Ret) != 2 || ow[0].Ret[1].ErrNil != 1 {
+		wrote := len(ow) == 1 && !ow[0].Abort && !ow[0].Panic && len(ow[0].Ret) == 2 &&
+			(ow[0].Ret[1].ErrNil == 1 || (ow[0].Ret[1].K == core.ABool && ow[0].Ret[1].B.K == core.B1)) // nil error, or "fits" reported as a bool
+		if !wrote {
 			e.R.Fail(rule, construct, e.fpos(mar), "writing the extension does not have a single successful abstract outcome: "+core.SummarizeOutcomes(ow))
 			continue
 		}
@@ -505,6 +507,16 @@ func c01UDPDecodeLayout(e *Env) {
 	core.Instrs(f, func(in ssa.Instruction) {
 		switch x := in.(type) {
 		case *ssa.BinOp:
+			if x.Op == token.OR {
+				// MID assembled by hand: uint16(b2)<<8 | uint16(b3)
+				for _, pr := range [][2]ssa.Value{{x.X, x.Y}, {x.Y, x.X}} {
+					if sh, ok := pr[0].(*ssa.BinOp); ok && sh.Op == token.SHL {
+						if c, isK := core.ConstInt(sh.Y); isK && c == 8 && byteIndexOf(sh.X) == 2 && byteIndexOf(pr[1]) == 3 {
+							mid = true
+						}
+					}
+				}
+			}
 			k, isC := core.ConstInt(x.Y)
 			if !isC {
 				return
@@ -512,6 +524,14 @@ func c01UDPDecodeLayout(e *Env) {
 			switch {
 			case x.Op == token.SHR && k == 6:
 				ver = true
+			case x.Op == token.AND && k == 0xc0:
+				ver = true // the same two bits tested in place: b0&0xc0 against 1<<6
+			case x.Op == token.SHR && k == 4:
+				if m, ok := x.X.(*ssa.BinOp); ok && m.Op == token.AND {
+					if c, ok := core.ConstInt(m.Y); ok && c == 0x30 {
+						typ = true // (b0&0x30)>>4
+					}
+				}
 			case x.Op == token.AND && k == 3:
 				if sh, ok := x.X.(*ssa.BinOp); ok && sh.Op == token.SHR {
 					if c, ok := core.ConstInt(sh.Y); ok && c == 4 {
@@ -751,8 +771,44 @@ func lenPayloadPositive(cond ssa.Value) core.CondMatch {
 		}
 		return false
 	}
+	// a counter derived from len(Payload) that is zero exactly when the payload is empty: len(Payload) (+1 for the marker on the
+	// non-empty edge) merged in a φ
+	var derived func(v ssa.Value, d int) bool
+	derived = func(v ssa.Value, d int) bool {
+		if d > 4 {
+			return false
+		}
+		if isLenPayload(v) {
+			return true
+		}
+		switch x := core.Unwrap(v).(type) {
+		case *ssa.Phi:
+			for _, ed := range x.Edges {
+				if !derived(ed, d+1) {
+					return false
+				}
+			}
+			return len(x.Edges) > 0
+		case *ssa.BinOp:
+			if c, isK := core.ConstInt(x.Y); isK && x.Op == token.ADD && c >= 0 {
+				// len+c is positive whenever len is; it is zero only if reached with len == 0 and c == 0 – the +1 sits on the len > 0 edge
+				if _, g := core.GuardedBy(x, func(cond ssa.Value) core.CondMatch {
+					cm, ok := core.AsCmp(cond)
+					if ok && isLenPayload(cm.X) {
+						if k0, isC0 := core.ConstInt(cm.Y); isC0 && k0 == 0 && cm.Op == token.GTR {
+							return core.CondMatch{Match: true, Branch: true}
+						}
+					}
+					return core.CondMatch{}
+				}); g {
+					return derived(x.X, d+1)
+				}
+			}
+		}
+		return false
+	}
 	k, isC := core.ConstInt(cmp.Y)
-	if !isC || !isLenPayload(cmp.X) {
+	if !isC || !derived(cmp.X, 0) {
 		return core.CondMatch{}
 	}
 	switch {
@@ -1023,6 +1079,23 @@ func c01ExactThreshold(e *Env) {
 				ok, why = false, "no outcome"
 			}
 			for _, o := range outs {
+				if !o.Abort && !o.Panic && len(o.Ret) == 2 && o.Ret[1].K == core.ABool && (o.Ret[1].B.K == core.B1 || o.Ret[1].B.K == core.B0) {
+					// an unexported writer that reports "fits" as a bool instead of nil / ErrTooSmall
+					fits := o.Ret[1].B.K == core.B1
+					n, isC := o.Ret[0].IsConst()
+					if !isC || n.Int64() != int64(want) {
+						ok, why = false, fmt.Sprintf("len(buf)=%d: reports size %s, expected %d", L, o.Ret[0], want)
+					}
+					if fits != (L >= want) {
+						ok, why = false, fmt.Sprintf("with a %d-byte buffer and %d bytes to write the result is fits=%v", L, want, fits)
+					}
+					if o.St != nil {
+						for _, ev := range o.St.Events {
+							ok, why = false, ev
+						}
+					}
+					continue
+				}
 				if o.Abort || o.Panic || len(o.Ret) != 2 || o.Ret[1].K != core.AErr || o.Ret[1].ErrNil == -1 {
 					ok, why = false, fmt.Sprintf("len(buf)=%d undecided: %s", L, core.SummarizeOutcomes([]core.Outcome{o}))
 					continue
@@ -1180,4 +1253,23 @@ func padScratch(fn *ssa.Function, args []*core.AVal) []*core.AVal {
 		return args
 	}
 	return args
+}
+
+// byteIndexOf: v is (a widening of) the byte at a constant index of a slice; -1 otherwise.
+func byteIndexOf(v ssa.Value) int64 {
+	for i := 0; i < 4; i++ {
+		switch x := v.(type) {
+		case *ssa.Convert:
+			v = x.X
+			continue
+		case *ssa.UnOp:
+			if ia, ok := x.X.(*ssa.IndexAddr); ok && x.Op == token.MUL {
+				if k, isK := core.ConstInt(ia.Index); isK {
+					return k
+				}
+			}
+		}
+		break
+	}
+	return -1
 }
